@@ -225,7 +225,7 @@ Section Des.
         apply (IH f' (DScan (c :: lit)) PLit st args tail);
           [exact Hlen' | exact I | exact W | exact Hb | exact Hl | exact Hp | exact D | exact B1 | exact B2 | ].
         cbn [pending rev]. rewrite zlen_app. change (zlen [c]) with 1. rewrite zlen_cons in F. lia. }
-      destruct (classify c) eqn:EC; try discriminate; try (apply Hother; assumption).
+      destruct (classify_fx true c) eqn:EC; try discriminate; try (apply Hother; assumption).
       (* CPct *)
       cbn [andb].
       pose proof (zlen_nonneg _ (rev lit)) as Hrl.
@@ -266,7 +266,7 @@ Section Des.
         unfold drel. rewrite Hacc', zlen_app. change (zlen [c]) with 1.
         split; [lia|]. split; [lia|]. split; [rewrite T1, Ht; reflexivity|].
         split; [apply nonzero_app; [exact Hnz | constructor; [exact Hc0 | constructor]] | exact Hrl']. }
-      destruct (classify c) eqn:EC; try discriminate.
+      destruct (classify_fx true c) eqn:EC; try discriminate.
       + (* CFlag *)
         unfold des_put. destruct (store_append mini fpos c) as [m1 [E1 [L1 T1]]]; [lia|]. rewrite E1.
         apply (Hput tl tll (pd_add d [c])); auto.
@@ -280,33 +280,68 @@ Section Des.
                                  (if p_prec d then p_plen d * 10 + (c - 48) else p_plen d))); auto.
       + (* CStar *)
         apply andb_true_iff in Hwf. destruct Hwf as [HS Hwf]. apply Z.leb_le in HS.
-        set (digits := dec (to_signed (8 * LF_SIZEOF_INT) (arg_raw a))) in *.
-        set (restd := ser_data f' (PDir (pd_add d digits)) args') in *.
+        set (v := to_signed (8 * LF_SIZEOF_INT) (arg_raw a)) in *.
+        set (restd := ser_data f' (PDir (pd_star d v)) args') in *.
         rewrite zlen_app, zlen_scalar_bytes in Hbl, Hp32 by lia.
-        pose proof (zlen_nonneg _ restd) as Hrd. pose proof (zlen_nonneg _ digits) as Hdg.
+        pose proof (zlen_nonneg _ restd) as Hrd.
         replace (blen <? d_pos st + LF_SIZEOF_INT) with false by (symmetry; apply Z.ltb_ge; lia).
         rewrite <- app_assoc in Hd.
         assert (Ha : rd_bytes rec (d_pos st) (Z.to_nat LF_SIZEOF_INT) = scalar_bytes LF_SIZEOF_INT a).
         { apply rd_bytes_prefix with (rest := restd ++ tail); [lia | exact Hd |].
           pose proof (zlen_scalar_bytes LF_SIZEOF_INT a Hz1) as Hzz. unfold zlen in Hzz. lia. }
-        rewrite Ha, star_value. fold digits.
-        rewrite wrapsz_small by (rewrite SIZE_MOD_val; lia).
-        replace (LF_MINI_FORMAT_STR_LEN - fpos =? 0) with false by (symmetry; apply Z.eqb_neq; lia).
-        rewrite (takeZ_all digits) by lia.
-        destruct (store_bytes_append_nul mini fpos digits) as [m1 [E1 [L1 [T1 _]]]]; [lia | lia |].
-        rewrite E1. rewrite wrap32_small by lia.
-        eapply (dgoal_same st (mkD (d_buf st) (d_loc st) (d_pos st + LF_SIZEOF_INT)
-                                   (Z.max (d_hw st) (d_pos st + LF_SIZEOF_INT)))); [reflexivity | reflexivity |].
-        apply (IH f' (DDir m1 (fpos + zlen digits) tl tll) (PDir (pd_add d digits))
-                  (mkD (d_buf st) (d_loc st) (d_pos st + LF_SIZEOF_INT) (Z.max (d_hw st) (d_pos st + LF_SIZEOF_INT)))
-                  args' tail);
-          [exact Hlen' | | exact Hwf | exact Hb | exact Hl | cbn [d_pos]; lia | | cbn [d_pos]; fold restd; lia
-           | cbn [d_pos]; fold restd; lia | exact Hfit].
-        * unfold drel, pd_add. cbn [p_acc p_l]. rewrite zlen_app.
-          split; [lia|]. split; [lia|]. split; [rewrite T1, Ht; reflexivity|].
-          split; [apply nonzero_app; [exact Hnz | apply dec_nonzero] | exact Hrl].
-        * cbn [d_pos]. fold restd.
-          apply (dropZ_after rec (d_pos st) (scalar_bytes LF_SIZEOF_INT a) (restd ++ tail)); [lia | apply zlen_scalar_bytes; lia | exact Hd].
+        rewrite Ha, star_value. fold v.
+        rewrite (wrap32_small (d_pos st + LF_SIZEOF_INT)) by lia.
+        (* whatever the rebuilt text becomes, the rest goes on from the state after the argument *)
+        assert (Hcont : forall m1 fp,
+                  zlen m1 = LF_MINI_FORMAT_STR_LEN -> fp = zlen (star_text true (p_acc d) v) ->
+                  takeZ fp m1 = star_text true (p_acc d) v -> nonzero (star_text true (p_acc d) v) ->
+                  dgoal st (printf_spec r1 f' (PDir (pd_star d v)) args')
+                        (des_go true (snp_of r1) rec blen n f' (DDir m1 fp tl tll)
+                                (mkD (d_buf st) (d_loc st) (d_pos st + LF_SIZEOF_INT) (Z.max (d_hw st) (d_pos st + LF_SIZEOF_INT))))).
+        { intros m1 fp Lm Hfp Tm Nm.
+          eapply (dgoal_same st (mkD (d_buf st) (d_loc st) (d_pos st + LF_SIZEOF_INT)
+                                     (Z.max (d_hw st) (d_pos st + LF_SIZEOF_INT)))); [reflexivity | reflexivity |].
+          apply (IH f' (DDir m1 fp tl tll) (PDir (pd_star d v)) _ args' tail);
+            [exact Hlen' | | exact Hwf | exact Hb | exact Hl | cbn [d_pos]; lia | | cbn [d_pos]; fold restd; lia
+             | cbn [d_pos]; fold restd; lia | exact Hfit].
+          - unfold drel, pd_star. cbn [p_acc p_l]. split; [exact Lm|]. split; [exact Hfp|]. split; [exact Tm|].
+            split; [exact Nm | exact Hrl].
+          - cbn [d_pos]. fold restd.
+            apply (dropZ_after rec (d_pos st) (scalar_bytes LF_SIZEOF_INT a) (restd ++ tail)); [lia | apply zlen_scalar_bytes; lia | exact Hd]. }
+        (* fmt[fmt_pos - 1] is the last character of the text rebuilt so far *)
+        assert (Hlast : 0 < fpos -> rd mini (fpos - 1) = last (p_acc d) 0).
+        { intros Hfp. assert (Hne : p_acc d <> []) by (intros Hnil; rewrite Hnil in Hf; change (zlen (@nil Z)) with 0 in Hf; lia).
+          rewrite <- (rd_takeZ mini fpos (fpos - 1)) by lia. rewrite Ht, Hf. apply rd_last. exact Hne. }
+        destruct ((v <? 0) && (0 <? fpos) && (rd mini (fpos - 1) =? 46)) eqn:ENg.
+        * (* negative precision: the '.' is dropped *)
+          apply andb_true_iff in ENg. destruct ENg as [ENg E46]. apply andb_true_iff in ENg. destruct ENg as [Ev EP].
+          apply Z.ltb_lt in EP. rewrite (Hlast EP) in E46.
+          assert (Hne : p_acc d <> []) by (intros Hnil; rewrite Hnil in Hf; change (zlen (@nil Z)) with 0 in Hf; lia).
+          assert (Hst : star_text true (p_acc d) v = removelast (p_acc d)).
+          { unfold star_text. cbn [andb]. rewrite Ev, E46. reflexivity. }
+          apply Hcont; rewrite ?Hst.
+          -- exact Hm.
+          -- rewrite zlen_removelast by exact Hne. lia.
+          -- rewrite <- (takeZ_takeZ mini (fpos - 1) fpos) by lia. rewrite Ht, Hf. apply takeZ_removelast. exact Hne.
+          -- apply nonzero_removelast. exact Hnz.
+        * assert (Hst : star_text true (p_acc d) v = p_acc d ++ dec v).
+          { unfold star_text. cbn [andb]. destruct (v <? 0) eqn:Ev; [|reflexivity]. cbn [andb] in ENg |- *.
+            destruct (0 <? fpos) eqn:EP; cbn [andb] in ENg.
+            - apply Z.ltb_lt in EP. rewrite <- (Hlast EP). rewrite ENg. reflexivity.
+            - apply Z.ltb_ge in EP. assert (Hnil : p_acc d = []) by (destruct (p_acc d); [reflexivity | rewrite zlen_cons in Hf; pose proof (zlen_nonneg _ l); lia]).
+              rewrite Hnil. reflexivity. }
+          rewrite Hst in HS, Hcont. rewrite zlen_app in HS.
+          set (digits := dec v) in *. pose proof (zlen_nonneg _ digits) as Hdg.
+          rewrite wrapsz_small by (rewrite SIZE_MOD_val; lia).
+          replace (LF_MINI_FORMAT_STR_LEN - fpos =? 0) with false by (symmetry; apply Z.eqb_neq; lia).
+          rewrite (takeZ_all digits) by lia.
+          destruct (store_bytes_append_nul mini fpos digits) as [m1 [E1 [L1 [T1 _]]]]; [lia | lia |].
+          rewrite E1.
+          apply Hcont.
+          -- lia.
+          -- rewrite zlen_app. lia.
+          -- rewrite T1, Ht. reflexivity.
+          -- apply nonzero_app; [exact Hnz | apply dec_nonzero].
       + (* CEll *)
         unfold des_put. destruct (store_append mini fpos c) as [m1 [E1 [L1 T1]]]; [lia|]. rewrite E1.
         set (d' := mkP (p_acc d ++ [c]) (p_l d + 1) (p_prec d) (p_plen d)) in *.
